@@ -277,6 +277,7 @@ func (s *Server) execute(c *conn, name string, a [][]byte) interface{} {
 		n := 0
 		for i := 1; i < len(a); i += 2 {
 			if _, ok := v.Hash[string(a[i])]; !ok {
+				v.HashOrder = append(v.HashOrder, string(a[i]))
 				n++
 			}
 			v.Hash[string(a[i])] = cp(a[i+1])
@@ -296,6 +297,7 @@ func (s *Server) execute(c *conn, name string, a [][]byte) interface{} {
 		if _, ok := v.Hash[string(a[1])]; ok {
 			return 0
 		}
+		v.HashOrder = append(v.HashOrder, string(a[1]))
 		v.Hash[string(a[1])] = cp(a[2])
 		return 1
 	case "hincrby":
@@ -309,6 +311,9 @@ func (s *Server) execute(c *conn, name string, a [][]byte) interface{} {
 		by, ok := atoi(a[2])
 		if !ok {
 			return ErrRep("ERR value is not an integer or out of range")
+		}
+		if _, ok := v.Hash[string(a[1])]; !ok {
+			v.HashOrder = append(v.HashOrder, string(a[1]))
 		}
 		cur, _ := atoi(v.Hash[string(a[1])])
 		cur += by
@@ -366,13 +371,29 @@ func (s *Server) execute(c *conn, name string, a [][]byte) interface{} {
 		if v == nil {
 			return out
 		}
+		// a small hash of a real server is a listpack: HGETALL answers in insertion order (the tool's checkpoint parser
+		// depends on it when entries of two run ids share one hash).  Fields the harness put there directly (no recorded
+		// age) are the oldest: they come first, sorted.
+		tracked := map[string]bool{}
+		for _, k := range v.HashOrder {
+			tracked[k] = true
+		}
 		ks := make([]string, 0, len(v.Hash))
 		for k := range v.Hash {
-			ks = append(ks, k)
+			if !tracked[k] {
+				ks = append(ks, k)
+			}
 		}
 		sort.Strings(ks)
 		for _, k := range ks {
 			out = append(out, []byte(k), v.Hash[k])
+		}
+		seen := map[string]bool{}
+		for _, k := range v.HashOrder {
+			if x, ok := v.Hash[k]; ok && !seen[k] {
+				seen[k] = true
+				out = append(out, []byte(k), x)
+			}
 		}
 		return out
 	case "hdel":
@@ -391,6 +412,12 @@ func (s *Server) execute(c *conn, name string, a [][]byte) interface{} {
 			if _, ok := v.Hash[string(f)]; ok {
 				delete(v.Hash, string(f))
 				n++
+				for i, o := range v.HashOrder {
+					if o == string(f) {
+						v.HashOrder = append(v.HashOrder[:i:i], v.HashOrder[i+1:]...)
+						break
+					}
+				}
 			}
 		}
 		if len(v.Hash) == 0 {
